@@ -111,6 +111,11 @@ func (c *cg) expr(t *Type, depth int) (Expr, *big.Int) {
 			v = new(big.Int).Rem(lv, rv)
 		}
 		if !inRange(t, v) {
+			// arithmetic on typed values wraps around at run time; a constant evaluator has to agree.
+			// (All-literal expressions stay in range: they are untyped constants.)
+			if (hasName(l) || hasName(r)) && (op == "+" || op == "-" || op == "*") && c.use("consts.wrapping_arithmetic") {
+				return &Bin{T: t, Op: op, L: l, R: r}, t.Wrap(v)
+			}
 			return l, lv
 		}
 		return &Bin{T: t, Op: op, L: l, R: r}, v
